@@ -14,7 +14,10 @@
      "bits"  b = the bits of a bit-field value, least significant first
      "seq"   items = initializers (list/tuple)
      "dict"  items = <<[name, v], ...>>
-     "str"   b = units of a bytes/str, n = unit width        "copy"  b = bytes of a cdata of the same type
+     "str"   b = the byte values of a bytes / the CODE POINTS of a str, n = unit width of the array items
+             (the units the array receives are StrUnits(b, n): at width 2 a code point above U+FFFF
+              takes two units - a surrogate pair -, every other one takes one)
+     "copy"  b = bytes of a cdata of the same type
      "len"   n = integer length for an open array
 
    The meaning of an initializer is given *pointwise* and without order: Claims(T, off, init) is
@@ -37,6 +40,14 @@ UnitBytes(units, w) ==
   IF units = <<>> THEN <<>>
   ELSE [k \in 1..w |-> (Head(units) \div Pow256(k - 1)) % 256] \o UnitBytes(Tail(units), w)
 
+\* ---- from the characters of a bytes/str to the units of the array (UTF-16 at width 2; identity at 1 and 4)
+MaxCp(w)       == IF w = 1 THEN 255 ELSE 1114111                       \* 0x10FFFF
+CpUnits(cp, w) == IF w = 2 /\ cp > 65535                               \* U+10000 is the first one that needs a pair
+                    THEN <<55296 + ((cp - 65536) \div 1024), 56320 + ((cp - 65536) % 1024)>>
+                    ELSE <<cp>>
+RECURSIVE StrUnits(_, _)
+StrUnits(cps, w) == IF cps = <<>> THEN <<>> ELSE CpUnits(Head(cps), w) \o StrUnits(Tail(cps), w)
+
 CtorFields(T)     == SelectSeq(T.fields, LAMBDA f : f.ctor)
 HasField(T, name) == \E i \in 1..Len(T.fields) : T.fields[i].name = name
 Field(T, name)    == T.fields[CHOOSE i \in 1..Len(T.fields) : T.fields[i].name = name]
@@ -56,7 +67,8 @@ WF(T, init) ==
     [] init.k = "copy" -> T.k # "prim" /\ T.size >= 0 /\ Len(init.b) = T.size
     [] init.k = "len"  -> IsOpen(T) /\ init.n >= 0
     [] init.k = "str"  -> /\ T.k = "arr" /\ T.item.k = "prim" /\ T.item.chr = 1 /\ T.item.size = init.n
-                          /\ (T.len >= 0 => Len(init.b) <= T.len)
+                          /\ \A i \in 1..Len(init.b) : init.b[i] >= 0 /\ init.b[i] <= MaxCp(init.n)
+                          /\ (T.len >= 0 => Len(StrUnits(init.b, init.n)) <= T.len)
     [] init.k = "seq"  -> IF T.k = "arr"
                             THEN /\ (T.len >= 0 => Len(init.items) <= T.len)
                                  /\ \A i \in 1..Len(init.items) : WF(T.item, init.items[i])
@@ -79,8 +91,9 @@ Claims(T, off, init) ==
     [] init.k \in {"leaf", "copy"} -> {BytesClaim(off, init.b)}
     [] init.k = "len"  -> {ExtClaim(off, init.n * T.isz)}
     [] init.k = "str"  -> \* the string and one terminating zero unit when shorter than the array
-         LET room == T.len < 0 \/ Len(init.b) < T.len
-         IN {BytesClaim(off, UnitBytes(init.b, init.n) \o (IF room THEN Zeros(init.n) ELSE <<>>))}
+         LET units == StrUnits(init.b, init.n)
+             room  == T.len < 0 \/ Len(units) < T.len
+         IN {BytesClaim(off, UnitBytes(units, init.n) \o (IF room THEN Zeros(init.n) ELSE <<>>))}
     [] init.k = "seq"  ->
          IF T.k = "arr"
            THEN \* "sequence initializers fill leading elements ... in order"
